@@ -202,12 +202,25 @@ impl<'a> LoweringContext<'a> {
             InferType::Struct(name) => {
                 if let Some((_, id)) = self.type_params_map.iter().find(|(n, _)| n == name) {
                     AirType::Param(*id)
-                } else {
+                } else if self.is_struct_name(name) {
                     AirType::Struct(name.clone())
+                } else {
+                    // Neither a type parameter in scope nor a struct: an unresolved type,
+                    // e.g. the declared result type `T` of a generic callee seen from its
+                    // caller. Lower it like the other unresolved types (Var / Dynamic)
+                    // instead of naming a struct that does not exist.
+                    AirType::I64
                 }
             }
             InferType::Var(_) | InferType::Dynamic => AirType::I64,
         }
+    }
+
+    fn is_struct_name(&self, name: &str) -> bool {
+        self.structs.iter().any(|s| s.name == name)
+            || self.program.stmts.iter().any(|stmt| {
+                matches!(&stmt.kind, TypedStmtKind::StructDecl { name: n, .. } if n == name)
+            })
     }
 
     fn gc_mode_for_function(&self, func: &TypedFunction) -> GcMode {
